@@ -125,7 +125,9 @@ def gen_goal(rng, priority, T, mode, orders, allow_vector, allow_critical=False,
 
 
 def gen_instance(rng, mode=None, solver="highs", orders=(1,), max_prio=3, allow_vector=None,
-                 allow_critical=True, allow_empty=True):
+                 allow_critical=True, allow_empty=True, linearize=False):
+    if linearize:
+        mode = mode or rng.choice(["keep", "keep", "sp1", "sp2", "default"])
     mode = mode or rng.choice(["default", "default", "keep", "sp1", "sp2"])
     T = rng.choice([2, 3, 3, 4, 5])
     t0 = rng.choice([0.0, 0.0, 1.5])
@@ -173,5 +175,10 @@ def gen_instance(rng, mode=None, solver="highs", orders=(1,), max_prio=3, allow_
     rng.shuffle(goals)
     # the first priority must not consist of critical goals only with nothing to optimise: fine for
     # the code, but uninformative; keep as generated.
+    if linearize:
+        inst["linearize"] = True
+        for s in goals:  # higher-order minimisation goals are rejected by the linearising mixin
+            if s["kind"] == "min":
+                s["order"] = 1
     inst["goals"] = goals
     return inst
